@@ -96,6 +96,7 @@ type sessionVerdict struct {
 	firstEP   string
 	graceUsed bool
 	groupsNow []string // group facts after this request
+	presented int      // how many cookies with the session cookie's name the request carried
 }
 
 func (o *Oracle) dueFor(s *sessions.SessionState, at time.Time) string {
@@ -153,6 +154,9 @@ func newSessionCookie(e *Exchange, name string) string {
 }
 
 func (o *Oracle) judgeL1(e *Exchange) {
+	if o.m.DocErr != nil {
+		return // C14 boot-fault run: the reference model has no policies to judge requests by (onBoot judged the load)
+	}
 	if e.Status == 0 {
 		// no response (fault): nothing may have been *wrongly* served, which the arrival check below still covers
 		if len(e.Arrivals) == 0 {
@@ -218,7 +222,7 @@ func (o *Oracle) judgeMediation(e *Exchange, pol *Policy, path string) {
 	var sv *sessionVerdict
 	for _, v := range vals {
 		if s := o.openProxySession(v); s != nil {
-			sv = &sessionVerdict{S: s, value: v}
+			sv = &sessionVerdict{S: s, value: v, presented: len(vals)}
 			break
 		}
 	}
@@ -229,6 +233,10 @@ func (o *Oracle) judgeMediation(e *Exchange, pol *Policy, path string) {
 		}
 		if e.Status == 200 && path != "/robots.txt" && path != "/oauth2/v1/certs" {
 			o.violate(e, "C01.A7-no-content-without-auth", "200 without reaching the upstream")
+		}
+		if skip && o.w.Cfg.Doc != nil && e.Status >= 300 && e.Status != 301 && e.Err == "" {
+			o.violate(e, "C14.A2-field-by-field", fmt.Sprintf("path %q matches a skip-auth pattern the document keeps in force for %s, but the request was not let through (%d)", path, pol.Service, e.Status),
+				"field", "behaviour", "shape", "skip-list-not-in-force")
 		}
 		o.judgeRefusal(e, pol, sv, skip)
 		return
@@ -406,7 +414,7 @@ func (o *Oracle) judgeRefusal(e *Exchange, pol *Policy, sv *sessionVerdict, skip
 			if G.IsZero() {
 				G = at
 			}
-			if done.Before(G.Add(cfg.GraceTTL).Add(-2*margin)) && done.Before(S.LifetimeDeadline.Add(-2*margin)) && o.cleanExcept(e, firstEP) {
+			if done.Before(G.Add(cfg.GraceTTL).Add(-2*margin)) && done.Before(S.LifetimeDeadline.Add(-2*margin)) && o.cleanExcept(e, firstEP) && sv.presented == 1 {
 				// C05.A3 (positive): inside the grace period an unavailable answer keeps the session working
 				o.violate(e, "C05.A3-grace-honoured", fmt.Sprintf("refused on a %s answer from /%s only %v into the outage (grace TTL %v)", "429/503", firstEP, at.Sub(G), cfg.GraceTTL),
 					"endpoint", firstEP, "fresh", fmt.Sprint(m == nil || m.GraceStart.IsZero()))
@@ -432,6 +440,9 @@ func (o *Oracle) judgeRefusal(e *Exchange, pol *Policy, sv *sessionVerdict, skip
 // any-of rule admits must keep being served while the facts are unchanged.
 func (o *Oracle) judgeRuleRefusal(e *Exchange, pol *Policy, sv *sessionVerdict, when string) {
 	S := sv.S
+	if sv.presented != 1 {
+		return // several cookies carry the session cookie's name: which one counts is not specified
+	}
 	for _, c := range e.Children {
 		if c.Injected != "" || c.Err != "" {
 			return
@@ -478,8 +489,21 @@ func (o *Oracle) judgeRuleRefusal(e *Exchange, pol *Policy, sv *sessionVerdict, 
 			}
 		}
 	}
+	// which documented-vs-implemented difference (if any) explains the refusal
+	emailUnsat := (len(pol.Addresses) > 0 && !contains(sat, "addr")) || (len(pol.Domains) > 0 && !contains(sat, "dom"))
+	profileDenied := false
+	if c := firstChild(e, "profile"); c != nil && c.Status == 200 && classifyL2("profile", c, pol.Groups).class == "denied" {
+		profileDenied = true
+	}
+	cause := "unexplained"
+	switch {
+	case when != "nodue" && profileDenied && len(pol.Groups) > 0 && !contains(sat, "grp"):
+		cause = "group-membership-mandatory-at-revalidation"
+	case emailUnsat:
+		cause = "every-email-rule-must-pass-after-login"
+	}
 	o.violate(e, "C11.A2-same-verdict-later", fmt.Sprintf("%q (groups %v) satisfies %v of the configured rules %v but the request was refused with %d (%s)", S.Email, groupsNow, sat, rules, e.Status, when),
-		"direction", "wrongly-refused", "rules", strings.Join(rules, "+"), "satisfied", strings.Join(sat, "+"), "when", ternary(when == "nodue", "nodue", "check-due"))
+		"direction", "wrongly-refused", "cause", cause)
 }
 
 // cleanExcept reports that no fault other than the answer of endpoint ep touched this request.
